@@ -42,7 +42,8 @@ def find_spec(interp, frame, node):
         # library model: the invariant belongs to the call site (the nearest repository frame)
         for fr in reversed(interp.frame_stack):
             if not fr.info.filename.endswith('functools_model.py'):
-                key = 'reduce#%d' % fr.reduce_site
+                key = fr.lib_site if fr.lib_site is not None and frame.info.qualname == 'map_list' \
+                    else 'reduce#%d' % fr.reduce_site
                 spec = interp.reg.loops_by_key.get((fr.info.filename, fr.info.qualname, key))
                 return spec, key
         return None, ordinal
@@ -180,6 +181,12 @@ def _havoc(interp, frame, spec, modified_names, tag):
                     for d in reversed(frame.enclosing):      # a variable of an enclosing function
                         if parts[0] in d:
                             obj = d[parts[0]]
+                            break
+                if obj is None and frame.info.filename.endswith('functools_model.py'):
+                    # library model: the names of the call site
+                    for fr in reversed(interp.frame_stack):
+                        if not fr.info.filename.endswith('functools_model.py'):
+                            obj = fr.locals.get(parts[0])
                             break
                 if obj is None:
                     raise Unsupported('modifies entry %r: unknown base' % name)
